@@ -80,7 +80,8 @@ Inductive request :=
 | Append (scheme_req : bytes) (partition_on : list bytes) (fr : frame)
 | Overwrite (fr : frame)
 | PlainWrite (scheme_req : bytes) (partition_on : list bytes) (has_nulls : option (list bytes)) (fr : frame)
-| Read (columns : list bytes) (filter_cols : list bytes).
+| Read (columns : list bytes) (filter_cols : list bytes)
+| Merge (schemas_same : bool).          (* writer.merge(file_list): ParquetFile(file_list, verify_schema=True), then the summary files *)
 
 Definition scheme_name_ok (s : bytes) : bool := bytes_eqb s s_simple || bytes_eqb s s_hive || bytes_eqb s s_drill.
 
@@ -129,6 +130,7 @@ Definition rejected (rq : request) (d : dset) : bool :=
       || negb (forallb (fun b => b) (f_typed fr))
   | Read cols fcols =>
       negb (subset_b cols (d_cols d ++ d_cats d)) || negb (subset_b fcols (d_cols d ++ d_cats d))
+  | Merge same => negb same
   end.
 
 (* ---- the operations as programs, in the order of the code ----------------------------------
@@ -162,6 +164,9 @@ Definition program (rq : request) (d : dset) (eff eff2 : list call * bool) : lis
   | Read cols fcols =>
       [ Check (subset_b cols (d_cols d ++ d_cats d));
         Check (subset_b fcols (d_cols d ++ d_cats d)) ]
+  | Merge same =>
+      [ Check same;                                                                         (* util.metadata_from_many: 'Incompatible schemas' *)
+        Eff (fst eff) (snd eff) ]                                                           (* _write_common_metadata *)
   end.
 
 (* ------------------------------------------------------------------------------------------ *)
